@@ -165,11 +165,13 @@ def run_check(tier, seed):
     t0 = time.time()
     ok, msg = inproc.build()
     parts = {}
+    plan = {"exhaustive{/,.,a,b}": ("c15-exh", 9 if tier == "quick" else 11, ["/.ab"]),
+            "exhaustive{/,.,a}": ("c15-exh", 11 if tier == "quick" else 14, ["/.a"]),
+            "random": ("c15-rand", 50000 if tier == "quick" else 3000000, []),
+            "relpath": ("c15-rel", 30000 if tier == "quick" else 1500000, [])}
     if ok:
-        parts["exhaustive{/,.,a,b}"] = inproc.run("c15-exh", 9 if tier == "quick" else 11, seed, "/.ab")
-        parts["exhaustive{/,.,a}"] = inproc.run("c15-exh", 11 if tier == "quick" else 14, seed, "/.a")
-        parts["random"] = inproc.run("c15-rand", 50000 if tier == "quick" else 3000000, seed)
-        parts["relpath"] = inproc.run("c15-rel", 30000 if tier == "quick" else 1500000, seed)
+        for name, (mode, n, extra) in plan.items():
+            parts[name] = inproc.run(mode, n, seed, *extra)
     code, ev = engine.run_property("rv.props.c15", tier, seed)
     cov = ev["coverage"]
     cov["inproc"] = {}
@@ -179,7 +181,9 @@ def run_check(tier, seed):
         cov["evaluations"] += r["evaluations"]
         cov["distinct_nontrivial"] += r.get("nontrivial_total", r["nontrivial"])
         for f in r["failures"]:
-            path = engine.write_replay("C15", {"inproc": name, "seed": seed, "failure": f}, f, prefix="fail-inproc")
+            path = engine.write_replay("C15", {"inproc": name, "mode": plan[name][0], "n": plan[name][1],
+                                               "extra": plan[name][2], "seed": seed, "failure": f}, f,
+                                       prefix="fail-inproc")
             print("VIOLATION property=C15 replay=%s" % path)
             print("  " + f["detail"][:600])
             code = 1
@@ -188,5 +192,10 @@ def run_check(tier, seed):
         cov["inproc"] = {"disabled": "in-process crate does not build against /repo: " + msg[-400:]}
     else:
         cov["exhaustive_note"] = "the two alphabet enumerations are complete up to their length bound"
+    from .. import fuzz
+    fv = []
+    fcode = fuzz.campaign("C15", {"normpath": (400000, 8000000, 200)}, tier, seed, cov, fv)
+    ev["violations"] += len(fv)
+    code = max(code, fcode) if code != 1 else 1
     ev["wall_s"] = round(time.time() - t0, 2)
     return code, ev
